@@ -358,17 +358,15 @@ PROPS["C42"] = {
 
 _V = "iroh__verifier"
 PROPS["C01"] = {
-    "functions": ["iroh::tls::verifier::ServerCertificateVerifier::{verify_server_cert,requires_raw_public_keys}", "ClientCertificateVerifier::{verify_client_cert,offer_client_auth}",
-                  "Ed25519Dalek::verify_signature", "iroh::tls::name::decode", "rustls::sign::public_key_to_spki, rustls ServerName/DnsName parsing (real)"],
-    "bounds": "any dialed key K; end-entity certificate: every 44-byte string (and lengths 43/45 for the right key); 0 or 1 intermediate; raw key lengths 31..=33, signature lengths 63..=65, 4-byte message",
-    "out": "MOST of the property: the TLS handshake itself (rustls/noq calls verify_tls13_signature with the presented certificate and the transcript), remote_id_from_noq_conn and connect_with_opts passing the name of the dialed id "
-           "(need a live connection / Endpoint); tls::name::encode (format!) is replaced by an equivalent construction of the name; decode() of arbitrary strings (split + collect allocates by symbolic length); Ed25519 itself (oracle)",
-    "stubs": [KEY_ALLVALID, KEY_ORACLE, SIG_ORACLE, BT],
-    "assumptions": ["rustls verifies the handshake signature against the end-entity certificate it passed to verify_server_cert (rustls contract)"],
+    "functions": ["iroh::tls::verifier::Ed25519Dalek::verify_signature", "ClientCertificateVerifier::{verify_client_cert,offer_client_auth,requires_raw_public_keys}", "ServerCertificateVerifier::requires_raw_public_keys"],
+    "bounds": "raw key lengths 31..=33, signature lengths 63..=65, 4-byte message, all bytes symbolic; client certificate: every 44-byte string, 0 or 1 intermediate",
+    "out": "MOST of the property: ServerCertificateVerifier::verify_server_cert and tls::name::{encode,decode} - decode uses str::split(\".\") (Two-Way string searcher) and encode uses format!, neither finishes under CBMC even "
+           "for one concrete name (120 s) - so 'the certificate must be the SPKI of the dialed id' and the name round trip are NOT decided; the TLS handshake itself (rustls/noq), remote_id_from_noq_conn, connect_with_opts; Ed25519 (oracle)",
+    "stubs": [KEY_ORACLE, SIG_ORACLE, BT],
+    "assumptions": ["rustls verifies the handshake transcript signature through SignatureVerificationAlgorithm::verify_signature with the key of the presented raw-public-key certificate (rustls contract)"],
     "harnesses": [
         H(_V, "c01_handshake_signature_is_checked_with_the_presented_key", "verify_signature Ok iff 32-byte valid key, 64-byte signature and the oracle accepts exactly (key, message, signature)", "key 31..=33 B, signature 63..=65 B, all symbolic", timeout=900, stub_env=True, stubs=["decompress", "verify"]),
-        H(_V, "c01_server_cert_must_be_spki_of_dialed_id", "with the name derived from dialed id K, a presented certificate is accepted iff it is exactly the Ed25519 SPKI of K; the derived name decodes back to K", "any K, every 44-byte certificate", timeout=900),
-        H(_V, "c01_chains_and_other_names_rejected", "intermediates, other certificate lengths and non-DNS names are rejected; client certs accepted only without intermediates", "fixed key, symbolic intermediate", timeout=900),
-        W(_V, "c01_witness"),
+        H(_V, "c01_client_cert_no_intermediates", "client certificates accepted iff no intermediates; raw public keys required", "every 44-byte certificate", timeout=900),
+        W(_V, "c01_witness", timeout=900),
     ],
 }
